@@ -324,6 +324,8 @@ def worker(item: Any) -> Dict[str, Any]:
 
     if what == "like":
         term_sks = [renumber(t) for t in item[1]]
+        if len(item) > 2:
+            LIKE_EXP["range"] = item[2]
         label = "has_like_terms on " + " + ".join(sk_str(t) for t in term_sks)
         mode = "real"
         results = explore(lambda ctx: sym_like(term_sks, ctx, "real"), st, max_paths=6000)
@@ -491,15 +493,17 @@ def run(tier: str) -> int:
     use_grid("quick" if tier == "quick" else "full")
     lib = term_library()
     LIKE_EXP["range"] = (0, 2) if tier == "quick" else (-2, 4)
-    t = 3 if tier == "quick" else 4
+    t = 3  # 4-term multisets (120 arrangements per path) do not finish inside any reasonable budget; the thorough tier
+    #        widens the exponent range instead
     items: List[Any] = []
     for k in range(2, t + 1):
         combos = list(itertools.combinations_with_replacement(range(len(lib)), k))
         if k == 4:
+            # sized to finish: one 4-term multiset has 120 arrangements per path; exponents 0..2 there
             random.Random(seed()).shuffle(combos)
-            combos = combos[:1500]
+            combos = combos[:200]
         for combo in combos:
-            items.append(("like", [lib[i][1] for i in combo]))
+            items.append(("like", [lib[i][1] for i in combo], LIKE_EXP["range"] if k < 4 else (0, 2)))
     pair_sks = list(enum_upto(3, binops=("add", "mul", "pow"), unops=("neg",)))
     if tier != "quick":
         pair_sks += [renumber(("mul", ("mul", ("const", 0), ("var", "x")), ("mul", ("const", 1), ("var", "x")))),
@@ -512,14 +516,14 @@ def run(tier: str) -> int:
     for flags in [(True, True, True), (True, True, False), (False, True, True), (False, True, False), (True, False, False)]:
         items.append(("make", flags))
     nmax = 400 if tier == "quick" else 5000
-    step = 25 if tier == "quick" else 100
+    step = 25  # one item realises every n of its range: must stay below the engine's realisation cap
     for lo in range(1, nmax + 1, step):
         items.append(("factor", lo, min(nmax, lo + step - 1)))
     n = 5 if tier == "quick" else 6
     for sk in enum_upto(n, unops=("neg", "sgn", "fact")):
         items.append(("noraise", sk))
     rep.bounds = {"like_terms": f"sums of 2..{t} terms drawn from {len(lib)} term forms ({[l for l, _ in lib]}), every permutation "
-                                f"and every binary grouping, coefficients unbounded reals, exponents {LIKE_EXP['range'][0]}..{LIKE_EXP['range'][1]}",
+                                f"and every binary grouping, coefficients unbounded reals, exponents {LIKE_EXP['range'][0]}..{LIKE_EXP['range'][1]}" + (" (4 terms: 200 sampled multisets, exponents 0..2)" if t == 4 else ""),
                   "terms_are_like": f"all ordered pairs of {len(pair_sks)} small trees",
                   "extraction": {"forms": TEXT_FORMS, "coefficients": C_POOL, "exponents": E_POOL, "variables": V_POOL},
                   "construction": "make_term with symbolic coefficient (unbounded) and exponent (-2..4), each component optional",
